@@ -281,6 +281,23 @@ Theorem request_removed_only_with_two_thirds_on_fields :
 Proof. exact @EvidenceHistoryProofs.removed_only_with_two_thirds_on_fields. Qed.
 Print Assumptions request_removed_only_with_two_thirds_on_fields.
 
+(** Over all histories: every stored piece of evidence is hashable, hence the attestation run of a queued
+    request never ends in the failure branch of VerifyEvidence (the side condition of [outsiders_ignored]
+    is met by everything the keeper can store). *)
+Theorem attestation_run_never_fails_on_stored_evidence :
+  forall (K : Type) (keqb : K -> K -> bool) (h : Z -> Z -> K) (ops : list (@EvidenceHistory.att_op K))
+         (sn : snapshot) (ord : list group -> list group),
+  Forall (fun e => EvidenceHistory.hashable (EvidenceBytes.pe_proof e) = true)
+         (EvidenceHistory.as_evs (fold_left (EvidenceHistory.att_step keqb h) ops EvidenceHistory.att_init)) /\
+  verify_evidence keqb (code_key h) ord sn
+    (map EvidenceBytes.ev_of (EvidenceHistory.as_evs (fold_left (EvidenceHistory.att_step keqb h) ops EvidenceHistory.att_init))) <> Failed.
+Proof.
+  exact (fun K keqb h ops sn ord =>
+    conj (@EvidenceHistoryProofs.stored_evidence_is_hashable K keqb h ops)
+         (@EvidenceHistoryProofs.attestation_run_never_fails K keqb h ops sn ord)).
+Qed.
+Print Assumptions attestation_run_never_fails_on_stored_evidence.
+
 
 (* --- source translation tie (GenFn) --- *)
 (* The Go function bodies named below are re-translated from the source on every check
